@@ -460,6 +460,13 @@ def _split_tuple_assignments(tree):
                 for t, v in zip(n.targets[0].elts, n.value.elts):
                     out.append(ast.copy_location(ast.Assign(targets=[t], value=v, type_comment=None), n))
                 return out
+            # `X = X + e` (X a name or attribute path not occurring in e) is `X += e`
+            if len(n.targets) == 1 and isinstance(n.targets[0], (ast.Name, ast.Attribute)) and isinstance(n.value, ast.BinOp) \
+                    and isinstance(n.value.op, (ast.Add, ast.Sub)) and dotted(n.targets[0]) is not None \
+                    and dotted(n.value.left) == dotted(n.targets[0]):
+                t = dotted(n.targets[0])
+                if not any(dotted(x) == t for x in ast.walk(n.value.right)):
+                    return ast.copy_location(ast.AugAssign(target=n.targets[0], op=n.value.op, value=n.value.right), n)
             return n
     return ast.fix_missing_locations(T().visit(tree))
 
